@@ -57,6 +57,9 @@ def verlet_case(draw):
         "stale": draw(st.booleans()),
         # construct the integrator with another time step and re-tune the public `dt` attribute afterwards
         "retune_dt": draw(st.sampled_from([None, None, 0.5, 3.0])),
+        # a rigid bond between the first two atoms (ASE FixBondLength): velocity Verlet with constraints applied to the
+        # positions and to both half-kicks stays reversible and second order
+        "rigid_bond": n >= 2 and kind == "pair" and draw(st.integers(0, 2)) == 0,
     }
 
 
@@ -72,6 +75,10 @@ def setup_verlet(case):
     atoms.set_masses(m)
     params = {"k": case["k"], "kvec": case["kvec"], "center": tuple(centre), "q": case["q"], "a": case["a"], "s": 1.5}
     atoms.calc = ModelCalc(case["kind"], params)
+    if case.get("rigid_bond"):
+        from ase.constraints import FixBondLength
+
+        atoms.set_constraint(FixBondLength(0, 1))
     if case.get("stale"):
         atoms.set_positions(pos + 0.37)
         atoms.get_forces()  # results of another configuration stay cached in the calculator
@@ -98,7 +105,7 @@ def make_verlet(case, dt_fs, n):
 def run_verlet(case):
     from quansino.integrators.displacement import Verlet
 
-    labels = ["verlet:" + case["kind"]]
+    labels = ["verlet:" + case["kind"]] + (["rigid-bond"] if case.get("rigid_bond") else [])
     try:
         with warnings.catch_warnings():
             warnings.simplefilter("ignore")
@@ -146,7 +153,12 @@ def run_verlet(case):
         fine, _ = max_err(dt_fs / 2, 2 * n, 2)
         ke0 = float((p0 ** 2 / (2 * m[:, None])).sum())
         scale = max(abs(escale), ke0, 1e-12)
-        if coarse > 1e-9 * scale and coarse > 1e-13:
+        # the quadratic law is asymptotic: it is tested where the dt^2 term dominates.  For some initial conditions that
+        # term nearly cancels at the sampled times (error of the size of (dt*omega)^4 x the energy scale) and the dt^4 term
+        # shows through, giving any ratio between 2 and 16 with a perfectly second-order integrator.
+        if coarse > 1e-9 * scale and coarse > 1e-13 and coarse <= 0.5 * case["x"] ** 4 * scale:
+            labels.append("second-order-term-nearly-cancels")
+        elif coarse > 1e-9 * scale and coarse > 1e-13:
             out["nontrivial"] = True
             ratio = coarse / max(fine, 1e-300)
             labels.append("ratio-tested")
